@@ -76,7 +76,10 @@ RULE = ('cases 0-15 = the 16 factory flag tuples (get_predefined must return a c
         'history (callbacks registered by name, resolved by the picklable model at call time), then: events, add_model '
         'of a further model and events on it, remove_model of a model and events through its stale helpers, more events; '
         'unqueued (Coq: the engine per call, positions running on) or queued (Queue.drain); add_model/remove_model '
-        'must not raise on any class (non-trivial: the added or the removed model ran transition callbacks). Each case runs on 12 classes x '
+        'must not raise on any class (non-trivial: the added or the removed model ran transition callbacks). "ordered" = '
+        'a flat machine (>= 2 states) one trigger of which is created by add_ordered_transitions(states | None, trigger, '
+        'loop, loop_includes_initial, conditions=, unless=, before=, after=, prepare=) with per-position / broadcast / '
+        'absent option lists of distinct callbacks, on the class under test; the Coq engines get the expansion. Each case runs on 12 classes x '
         '{by name, through the factory} x diagram backends %s (unavailable here: %s). Non-trivial: the base run '
         'executed a transition after a failed check, or processed >= 2 events / raised, and at least one async class '
         'was compared inside the async envelope; distinct by case hash.' % (BACKENDS, MISSING_BACKENDS))
@@ -250,7 +253,12 @@ def _cb_lists(machine):
 
     def reg(lst):
         for i, c in enumerate(lst):
-            where[c] = (len(lst), i)
+            new = (len(lst), i)
+            if c in where:          # a callback shared by several lists (broadcast option of add_ordered_transitions):
+                old = where[c]      # 'last in its stage' only if it is last in every list it belongs to
+                last = old[1] == old[0] - 1 and new[1] == new[0] - 1
+                new = (1, 0) if last else (2, 0)
+            where[c] = new
     for key in ('prepare_event', 'before_sc', 'after_sc', 'finalize', 'on_exception', 'on_final'):
         reg(machine[key])
     for _, d in machine['states']:
@@ -483,6 +491,80 @@ def enc_pickle(case):
     return [4, head + [[[op[1], [op[2], op[3], op[4]]] for op in trigs]]]
 
 
+def expand_ordered(o, all_states, init):
+    """what Machine.add_ordered_transitions(states, trigger, loop, loop_includes_initial, conditions=, unless=,
+    before=, after=, prepare=) creates, as transitions of the flat model (core.py: the list is rotated so that the
+    initial state comes first; position i of every option belongs to the i-th created transition, the closing
+    transition of the loop takes the last position)"""
+    states = list(all_states if o['states'] is None else o['states'])
+    n = len(states)
+    count = n if o['loop'] else n - 1
+
+    def at(key, i):
+        v = o[key]
+        if v is None:
+            return []
+        return list(v[0] if len(v) == 1 else v[i])
+    if init in states:
+        idx = states.index(init)
+        states = states[idx:] + states[:idx]
+        first = states[0 if o['loop_includes_initial'] else 1]
+    else:
+        first = states[0]
+    pairs = [(states[i], states[i + 1], i) for i in range(n - 1)]
+    if o['loop']:
+        pairs.append((states[-1], first, count - 1))
+    return [dict(src=a, dst=b, prepare=at('prepare', i),
+                 conds=[(c, True) for c in at('conditions', i)] + [(c, False) for c in at('unless', i)],
+                 before=at('before', i), after=at('after', i)) for a, b, i in pairs]
+
+
+def gen_ordered(rng):
+    """a flat machine with >= 2 states; besides its ordinary events one trigger is created by
+    add_ordered_transitions with per-position (or broadcast, or absent) option lists of distinct callbacks"""
+    while True:
+        c = flat.gen_case(rng, malformed=False, p_unknown=0.0)
+        if len(c['machine']['states']) >= 2:
+            break
+    m = c['machine']
+    sids = [s for s, _ in m['states']]
+    ne = len(m['events'])
+    nxt = [max(list(_cb_lists(m)) + [0]) + 1]
+    loop = rng.random() < 0.7
+    if rng.random() < 0.4:
+        states = None
+        n = len(sids)
+    else:
+        n = rng.randint(2, len(sids))
+        states = rng.sample(sids, n)
+    count = n if loop else n - 1
+
+    def cbs(hi):
+        out = []
+        for _ in range(rng.randint(0, hi)):
+            out.append(nxt[0])
+            nxt[0] += 1
+        return out
+
+    def option(hi, p_none=0.25):
+        x = rng.random()
+        if x < p_none:
+            return None
+        if x < p_none + 0.15:
+            return [cbs(hi)]                              # broadcast: one entry for every transition
+        return [cbs(hi) for _ in range(count)]
+    o = dict(event=ne, states=states, loop=loop, loop_includes_initial=rng.random() < 0.7,
+             conditions=option(1, 0.4), unless=option(1, 0.6), before=option(2), after=option(2), prepare=option(2))
+    m['events'].append((ne, expand_ordered(o, sids, c['init'])))
+    for cb in range(1, nxt[0]):
+        if cb not in c['env']['bycb'] and rng.random() < 0.3:
+            c['env']['bycb'][cb] = (rng.random() < 0.8, None, [])
+    c['history'] = [(rng.choice([0, 0, 2]), (ne if rng.random() < 0.65 else rng.randrange(ne)), 100 + j)
+                    for j in range(rng.randint(2, 8))]
+    c['ordered'] = o
+    return c
+
+
 def gen_batch(seed, n, tier):
     cases = []
     for k in ALL_FLAGS:
@@ -490,7 +572,7 @@ def gen_batch(seed, n, tier):
     crash_bases = []
     for i in range(n):
         rng = random.Random('C09-%d-%d' % (seed, i))
-        stream = ('flat', 'crash', 'queue', 'dispatch', 'crash', 'pickle', 'may', 'queue')[i % 8]
+        stream = ('flat', 'crash', 'queue', 'dispatch', 'crash', 'pickle', 'may', 'queue', 'ordered')[i % 9]
         if stream == 'queue':
             cases.append(gen_queue(rng))
         elif stream == 'dispatch':
@@ -499,8 +581,11 @@ def gen_batch(seed, n, tier):
             cases.append(gen_pickle(rng))
         else:
             follow = rng.randint(2, 4) if stream == 'crash' else 0     # events after the crashing call
-            c = flat.gen_case(rng, malformed=False, may=(stream == 'may'), p_unknown=0.0,
-                              hist_len=rng.randint(1, 5) + follow if stream == 'crash' else None)
+            if stream == 'ordered':
+                c = gen_ordered(rng)
+            else:
+                c = flat.gen_case(rng, malformed=False, may=(stream == 'may'), p_unknown=0.0,
+                                  hist_len=rng.randint(1, 5) + follow if stream == 'crash' else None)
             c.pop('cls', None)
             c['sub'] = 'flat'
             c['stream'] = stream
@@ -664,6 +749,29 @@ def queued_arg(case, flags, default=0):
     return bool(q)
 
 
+def build_flat(case, world, cls, extra_kwargs):
+    """flat.build_machine; the trigger described by case['ordered'] is created through the public
+    add_ordered_transitions of the class under test (the model gets its expansion, expand_ordered)"""
+    o = case.get('ordered')
+    if not o:
+        return flat.build_machine(case, world, cls=cls, extra_kwargs=extra_kwargs)
+    c2 = dict(case)
+    c2['machine'] = dict(case['machine'])
+    c2['machine']['events'] = [(e, ts) for e, ts in case['machine']['events'] if e != o['event']]
+    machine, model = flat.build_machine(c2, world, cls=cls, extra_kwargs=extra_kwargs)
+    R = world.recorder
+
+    def arg(key, slot):
+        return None if o[key] is None else [[R(slot, c) for c in lst] for lst in o[key]]
+    machine.add_ordered_transitions(states=None if o['states'] is None else ['s%d' % x for x in o['states']],
+                                    trigger='e%d' % o['event'], loop=bool(o['loop']),
+                                    loop_includes_initial=bool(o['loop_includes_initial']),
+                                    conditions=arg('conditions', 'cond'), unless=arg('unless', 'unless'),
+                                    before=arg('before', 'before'), after=arg('after', 'after'),
+                                    prepare=arg('prepare', 'prepare'))
+    return machine, model
+
+
 def run_flat_on(case, cls, flags, backend):
     is_async = bool(flags[3])
     runner = Runner(is_async)
@@ -675,8 +783,8 @@ def run_flat_on(case, cls, flags, backend):
         async def noop(a, item):
             return None
         world.aperform = noop
-        machine, model = flat.build_machine(case, world, cls=cls,
-                                            extra_kwargs=dict(queued=queued_arg(case, flags), **class_kwargs(flags, backend)))
+        machine, model = build_flat(case, world, cls,
+                                    dict(queued=queued_arg(case, flags), **class_kwargs(flags, backend)))
         world.model_ids[id(model)] = case.get('model', 0)
         world.current_model = model
         out, free = [], 1
@@ -1148,6 +1256,16 @@ def shrink_candidates(case):
         return
     gens = shrink_queue if case['sub'] == 'queue' else __import__('c01').shrink_candidates
     for c in gens(case):
+        o = c.get('ordered')
+        if o:                       # keep the model's expansion consistent with the add_ordered_transitions call
+            exp = expand_ordered(o, [x for x, _ in c['machine']['states']], c['init'])
+            evs = [[e, ts] for e, ts in c['machine']['events']]
+            if not any(e == o['event'] for e, _ in evs):
+                continue
+            c['machine']['events'] = [[e, (exp if e == o['event'] else ts)] for e, ts in evs]
+            used = {e for e, _ in c['machine']['events']}
+            if any(h[1] not in used for h in c['history']):
+                continue
         yield c
     if case['sub'] == 'dispatch':
         for i in range(len(case['models'])):
